@@ -98,7 +98,7 @@ def _helper_read_frame(lit: LineIterator) -> tuple:
         resnums.append(int(line[:5]))
         resnames.append(line[5:10].split()[-1])
         attypes.append(line[10:15].split()[-1])
-        words = line[22:].split()
+        words = line[20:].split()
         pos[i, 0] = float(words[0])
         pos[i, 1] = float(words[1])
         pos[i, 2] = float(words[2])
